@@ -337,6 +337,11 @@ func c11Gen(c *Ctx) (cs c11Case, cell string) {
 }
 
 func c11Run(c *Ctx) {
+	if c.Sub("api?").Intn(16) == 3 {
+		// numeric / duration options registered through the public AddOption API
+		apiMiniConvert(c)
+		return
+	}
 	if inHistTail(c, int64(len(c11IntKinds)*35*57*len(c11Spell))+40000, int64(len(c11IntKinds)*35*57*len(c11Spell))+1500000) {
 		// the allowed values are the ones the option lists NOW: the program may edit Choices between two parses
 		histCase(c, GenDecl(c.Sub("dh"), histChoiceCfg()), []string{"choices-in-place", "choices-replaced"}, []string{"parse"})
